@@ -6,6 +6,8 @@
  *   compile_file <h> <srcfile>            h := program_new(); nev_compile_file(srcfile, h)
  *   prepare      <h> <entry> [arg]...     nev_prepare(h, entry); on success the declared parameters are
  *                                         filled positionally: i:<dec> | f:<text for strtof> | s:<hex bytes>
+ *   prepare      <h> <entry>@argv [arg]...  nev_prepare_argc_argv(h, entry, argc, argv): the arguments as C strings in a
+ *                                         NEW host-owned argv vector (earlier vectors stay alive until program_delete)
  *   vm_new       <v> <mem> <stack>        v := vm_new(mem, stack)
  *   execute      <h> <v>                  nev_execute(h, v, &result)
  *   program_delete <h>                    program_delete(h)
@@ -77,6 +79,8 @@ static unsigned prog_msgs_seen[NH];
 static char * prog_src[NH];          /* keeps the source text / file name alive */
 static char * prog_args[NH][16];     /* keeps string arguments alive */
 static vm * vms[NH];
+static char ** prog_argvs[NH][64];   /* every argv vector handed to nev_prepare_argc_argv, kept alive */
+static int prog_nargvs[NH];
 
 static int cap_out = -1, cap_err = -1, saved_out = -1, saved_err = -1;
 static char cap_out_name[4200], cap_err_name[4200];
@@ -388,6 +392,27 @@ int main(int argc, char ** argv)
             else
             {
                 program * p = progs[h];
+                char * at = strstr(tok[2], "@argv");
+                if (at != NULL && at[5] == 0)
+                {
+                    int ac = nt - 3, ret;
+                    char ** av = calloc((size_t)ac + 1, sizeof(char *));
+                    *at = 0;
+                    for (int i = 0; i < ac; i++)
+                    {
+                        const char * a = tok[i + 3];
+                        av[i] = (a[0] == 's' && a[1] == ':') ? unhex(a + 2) : strdup(strlen(a) >= 2 && a[1] == ':' ? a + 2 : a);
+                    }
+                    if (prog_nargvs[h] < 64) prog_argvs[h][prog_nargvs[h]++] = av;
+                    begin_capture();
+                    ret = nev_prepare_argc_argv(p, tok[2], (unsigned)ac, av);
+                    end_capture();
+                    fprintf(out, "RET %d\n", ret);
+                    if (ret == 0) fprintf(out, "PREP params=%u addr=%u types=argv:%d\n", p->params_count, p->entry_addr, ac);
+                    print_all(-1);
+                    index++;
+                    continue;
+                }
                 begin_capture();
                 int ret = nev_prepare(p, tok[2]);
                 end_capture();
@@ -460,6 +485,8 @@ int main(int argc, char ** argv)
                 end_capture();
                 progs[h] = NULL; free(prog_src[h]); prog_src[h] = NULL;
                 for (int i = 0; i < 16; i++) { free(prog_args[h][i]); prog_args[h][i] = NULL; }
+                for (int i = 0; i < prog_nargvs[h]; i++) { for (char ** q = prog_argvs[h][i]; *q; q++) free(*q); free(prog_argvs[h][i]); }
+                prog_nargvs[h] = 0;
                 fprintf(out, "RET -\n");
             }
         }
